@@ -388,7 +388,9 @@ def _hints_from_signature(obj: tp.Union[type, tp.Callable]) -> dict[str, type[tp
     # (An alias such as `tuple["UserId", int]` was not written in the module of its origin.)
     module = None if tp.get_origin(obj) else getattr(carrier, "__module__", None)
     try:
-        evaluated = tp.get_type_hints(carrier)
+        # (A namespace of our own: `typing` shares one `Optional["Node"]` between all the
+        #   modules that write it, and would otherwise answer with whichever `Node` it met first.)
+        evaluated = tp.get_type_hints(carrier, localns={})
     except (NameError, TypeError):
         evaluated = {}
     for name, param in params.items():
